@@ -105,6 +105,8 @@ def c01(pid, tier, seed):
         fam("single_shapes", W=4, H=3, D=3 if q else 4, BarOps=("set_message", "println", "finish_with_message", "tick"),
             MsgShapes=("e", "a", "Wm1", "W", "W1", "2W", "2W1", "nlA", "Anl", "AnlB", "AnnB", "nl", "sgr", "sA", "wide", "WnnA", "WnA", "2WnnA"),
             TextShapes=("T", "TW", "TW1", "T2W1", "TnlT", "TnnT", "e", "nl", "nlT", "Tnl", "TWnnT", "T2WnnT", "TWnT", "TWnTW"), Tpls=("M", "PnM", "MnC"), Base=0),
+        # a log line that is taller than the whole terminal (its top scrolls away, nothing may be lost)
+        fam("single_tall_log", W=3, H=4, D=4 if q else 5, BarOps=("tick", "set_message", "println", "finish"), MsgShapes=("a", "W1"), TextShapes=("T", "T5W"), Fins=("AndLeave",)),
         fam("single_limited", W=3, H=4, D=4 if q else 5, BarOps=("burst", "tick", "set_message", "println", "finish", "finish_and_clear", "drop"), Hz=20, DTs=(0, 50000),
             MsgShapes=("a", "W1", "nlA"), TextShapes=("T", "TW1")),
         fam("single_pty", W=6, H=5, D=4 if q else 5, BarOps=("tick", "set_message", "println", "finish", "finish_and_clear", "drop"),
@@ -180,6 +182,9 @@ def c03(pid, tier, seed):
             MsgShapes=("a", "W1", "nlA"), TextShapes=("T", "TW1", "TnlT", "e", "TWnnT"), Hz=1, DTs=(0,), Fins=("AndLeave", "AndClear")),
         fam("log_multi", W=4, H=12, Multi=True, MaxBars=2, D=4 if q else 5, BarOps=("tick", "finish", "drop", "println"),
             MpOps=("mp_println", "mp_suspend", "mp_clear"), TextShapes=("T", "TW1"), Fins=("AndLeave",), Tpls=("M", "MnC"), M0="id", shards=12),
+        # log lines taller than the terminal, through a bar and through the MultiProgress
+        fam("log_tall", W=3, H=4, Multi=True, MaxBars=2, Pre=1, D=4 if q else 5, BarOps=("tick", "println", "finish", "drop"), MpOps=("mp_println",), TextShapes=("T", "T5W"),
+            Fins=("AndLeave",), Tpls=("M",), M0="id", shards=12),
         fam("log_multi_limited", W=4, H=12, Multi=True, MaxBars=3, D=14, BarOps=("burst", "tick", "finish", "drop", "println", "set_message"),
             MpOps=("mp_println", "mp_suspend"), MsgShapes=("a", "W1"), TextShapes=("T", "TW1", "TnlT"), Fins=("AndLeave", "AndClear"),
             Hz=1, DTs=(0, 1000000), M0="id", mode=("sim", 400 if q else 4000, 16), shards=12),
